@@ -26,4 +26,14 @@ PROPS["C02"] = {
     "assumptions": ["Fabric delivers unique tx ids; ACL maps a key to one address"],
 }
 
+PROPS["C20"] = {
+    "modules": ["Foundation.Proofs.C20"],
+    "level_text": "Machine-checked: for every strictly sorted key list and every page size >= 1, following bookmarks from the empty one terminates and the concatenated pages equal the key range exactly (each key once, in order); pages never exceed the size and contain only range keys; non-positive sizes and foreign bookmarks are rejected. The model (query validation + the stub's pagination contract) is tied to QueryChannelTransfersFrom/LoadCCFromTransfers by histories of records created, committed, cancelled and deleted through the real chaincode next to unrelated keys.",
+    "level_note": "Trusted: Lean kernel + 3 axioms; the stub pagination contract (first `size` keys >= bookmark, next key as bookmark) as implemented by the simulated peer and assumed of Fabric's paginator; UTF-8 byte order = code point order; keys are built by concatenating the prefix and the id.",
+    "trusted_base": ["GetStateByRangeWithPagination contract (simulated peer; Fabric's paginator trusted to meet it)", "record life cycle (mk/commit/cancel/del) modelled minimally; full treatment under C10"],
+    "hypotheses": ["ledger keys are strictly sorted (a map has no duplicate keys)"],
+    "not_modelled": ["decoding of record values (protojson)"],
+    "assumptions": [],
+}
+
 NOT_APPLICABLE = {}
